@@ -124,6 +124,20 @@ theorem c03_partial : C03_for C01.tr := by
     cases heq
     exact wellScoped_sound _ _ (C03.Frag.tr_wellScoped km s _ hst)
 
+/-- THE PROVED PART, stages S1 and S2a (one directed hop): the model translator `tr2` only produces closed statements -/
+theorem c03_partial_S2 : C03_for C01.tr2 := by
+  intro km q st ps h
+  obtain ⟨hw, hps⟩ := C03.Frag.tr2_wellScoped km q st ps h
+  subst hps
+  exact wellScoped_sound _ _ hw
+
+/-- the binder's verdict itself (stronger than resolution: also no missing parameter, no CTE arity mismatch) for every `tr2` statement -/
+theorem tr_wellScoped (km : KindMap) (q : Cy.Query) (st : Stmt) (ps : List (String × Val)) (h : C01.tr2 km q = some (st, ps)) :
+    wellScoped ⟨schema, ps.map (·.1), false⟩ st = true := by
+  obtain ⟨hw, hps⟩ := C03.Frag.tr2_wellScoped km q st ps h
+  subst hps
+  exact hw
+
 /-! ### non-vacuity -/
 
 def env0 : Env := { cat := schema, params := ["pi0"], updating := false }
